@@ -1042,6 +1042,49 @@ def corpus_cases():
     return out
 
 
+def laws_check(chk, cases):
+    """closure-operator laws (coq/props/C18.v: c18_extensive, c18_closed, c18_roles_as_set, c18_idempotent, c18_union)
+    on the implementation itself, all calls of a case on ONE resolver instance; str role lists only."""
+    from rbacx.core.roles import StaticRoleResolver
+
+    rng = chk.rng
+    for c in cases:
+        roles = c.get("roles")
+        if not isinstance(roles, list) or c.get("ctor") or c.get("cfg"):
+            continue
+        g = c["graph"]
+        res = StaticRoleResolver(g)
+        perm = list(roles)
+        rng.shuffle(perm)
+        perm += [rng.choice(roles) for _ in range(rng.randint(0, 2))] if roles else []
+        k = rng.randint(0, len(roles))
+        try:
+            l = res.expand(list(roles))
+            lp = res.expand(perm)
+            l2 = res.expand(list(l))
+            la, lb = res.expand(roles[:k]), res.expand(roles[k:])
+            again = res.expand(list(roles))
+        except Exception as e:  # noqa: BLE001
+            chk.violation("expand raised %s on a list of str roles (c18_terminates)" % type(e).__name__, c)
+            continue
+        chk.count("fam:laws")
+        bad = None
+        if not set(roles) <= set(l):
+            bad = ("a given role is missing from the answer (c18_extensive)", l)
+        elif any(p not in l for x in l for p in (g.get(x) or [])):
+            bad = ("the answer is not closed under the inheritance edges (c18_closed)", l)
+        elif set(lp) != set(l):
+            bad = ("the same roles in another order / repeated give another answer (c18_roles_as_set)", {"perm": perm, "l": l, "lp": lp})
+        elif set(l2) != set(l):
+            bad = ("expanding an answer changes it (c18_idempotent)", {"l": l, "l2": l2})
+        elif set(la) | set(lb) != set(l):
+            bad = ("expand(r1 + r2) is not the union of expand(r1) and expand(r2) (c18_union)", {"k": k, "l": l, "la": la, "lb": lb})
+        elif again != l:
+            bad = ("the same call on the same instance answers differently the second time", {"l": l, "again": again})
+        if bad:
+            chk.violation(bad[0], {"graph": g, "roles": roles, "fam": "laws"}, impl=bad[1])
+
+
 def run(chk):
     chk.rule = ("enumerated: every inheritance graph on 3 role names x every role list of length <= 3 over those "
                 "names and one absent name (quick: every 3rd), plus random graphs up to 30 nodes with cycles, "
@@ -1058,4 +1101,6 @@ def run(chk):
     cc = corpus_cases()                         # corpus first
     chk.count("corpus", len(cc))
     check_cases(chk, cc, replay=True)
-    check_cases(chk, gen_cases(chk))
+    gc = gen_cases(chk)
+    check_cases(chk, gc)
+    laws_check(chk, [c for c in gc if c.get("fam") in ("random", "enum3")])
